@@ -58,7 +58,7 @@ def shapes(tier, maxdim=3):
         alph = {1: range(1, 6), 2: range(1, 5), 3: range(1, 4)}
         cap = {1: 60, 2: 16, 3: 18}
     else:
-        alph = {1: range(1, 7), 2: range(1, 6), 3: range(1, 6)}
+        alph = {1: range(1, 9), 2: range(1, 6), 3: range(1, 6)}
         cap = {1: 60, 2: 60, 3: 60}
     out = []
     for nd in range(1, maxdim + 1):
